@@ -29,11 +29,28 @@ package car
 
 //@ func loadCarFast
 //@   loop[0] decreases lim(cr.br) - pos(cr.br)
+//@   let blk, nerr := call[CarReader.Next#0]
+//@   let ferr := call[batchStore.PutMany#0]
+//@   let perr := call[batchStore.PutMany#1]
+//@   ensures nil_only_after_a_clean_end [C02]: err == nil ==> nerr == io.EOF && result0 == cr.Header
+//@   ensures reader_error_is_reported [C02]: nerr != nil && nerr != io.EOF ==> err == nerr && result0 == nil
+//@   call[append#0] assert every_block_read_is_batched [C02]: ref(arg0) == ref(buf) && len(arg1) == 1 && arg1[0] == blk && nerr == nil
+//@   call[batchStore.PutMany#0] assert final_batch_is_flushed_whole [C02]: ref(arg0) == ref(s) && arg1 == ctx && ref(arg2) == ref(buf) && len(arg2) == len(buf)
+//@   call[batchStore.PutMany#1] assert full_batch_is_flushed_whole [C02]: ref(arg0) == ref(s) && arg1 == ctx && ref(arg2) == ref(buf) && len(arg2) == len(buf)
+//@   check pending_blocks_are_flushed_before_a_nil_return [C02]: err == nil && len(buf) > 0 ==> ferr == nil
+//@   loop[0] step batch_restarts_only_after_a_flush [C02]: len(buf) == 0 || len(buf) == athead(0, len(buf)) + 1
 
 //@ func loadCarSlow
 //@   loop[0] decreases lim(cr.br) - pos(cr.br)
+//@   let blk, nerr := call[CarReader.Next#0]
+//@   let perr := call[Store.Put#0]
+//@   ensures nil_only_after_a_clean_end [C02]: err == nil ==> nerr == io.EOF && result0 == cr.Header
+//@   ensures reader_error_is_reported [C02]: nerr != nil && nerr != io.EOF ==> err == nerr && result0 == nil
+//@   call[Store.Put#0] assert stores_the_block_just_read [C02]: ref(arg0) == ref(s) && arg1 == ctx && arg2 == blk && nerr == nil
+//@   loop[0] step continues_only_after_a_successful_put [C02]: perr == nil
 
 //@ func NewCarReaderWithOptions
+//@   check applies_every_option [C02,C09]: err == nil ==> rangeindex == len(opts)
 //@   let ch, herr := call[ReadHeader#0]
 //@   ensures only_version_1 [C02,C09]: err == nil ==> herr == nil && ch.Version == 1 && result0 != nil
 //@   ensures header_error_propagates [C02,C09]: herr != nil ==> err == herr && result0 == nil
@@ -49,11 +66,14 @@ package car
 //@   check offset_advances_once [C15]: err == nil ==> sct.offset == ite(hasres, old(sct.offset), wrap_u64(old(sct.offset) + size))
 
 //@ func (*selectiveCarTraverser).traverseHeader
+//@   call[dynamic#0] assert one_root_per_dag [C15]: len(arg0.Roots) == len(sct.sc.dags)
+//@   loop[0] invariant copied [C15]: len(roots) == rangeindex + 1
 //@   let hsize, herr := call[HeaderSize#0]
 //@   call[dynamic#0] assert header [C15]: arg0.Version == 1
 //@   check offset_after_header [C15]: herr == nil ==> sct.offset == wrap_u64(old(sct.offset) + hsize)
 
 //@ func (SelectiveCarPrepared).Dump
+//@   check every_prepared_cid_is_written [C15]: err == nil ==> rangeindex == len(sc.cids)
 //@   loop[0] invariant offset_is_bytes_written [C15]: wn(w) - old(wn(w)) < 4611686018427387904 ==> offset == wn(w) - old(wn(w))
 //@   loop[0] invariant mono [C15]: wn(w) >= old(wn(w))
 //@   let size := call[util.LdSize#0]
@@ -64,6 +84,7 @@ package car
 // from several roots is written once; each root is walked.
 
 //@ func WriteCarWithWalker
+//@   check every_root_is_walked [C01,C15]: err == nil ==> rangeindex == len(roots)
 //@   call[WriteHeader#0] assert header_first [C01,C15]: arg0.Version == 1 && arg0.Roots == roots && ref(arg1) == ref(w)
 //@   call[merkledag.Walk#0] assert one_visited_set_spans_all_roots [C01,C15]: ref(seen) == athead(0, ref(seen))
 //@   call[merkledag.Walk#0] assert walks_this_root [C01,C15]: arg2 == r
@@ -102,6 +123,7 @@ package car
 //@     let werr := call[util.LdWrite#0]
 //@     call[util.LdWrite#0] assert section_is_cid_then_data [C01,C15]: ref(arg0) == ref(w) && len(arg1) == 2 && ref(arg1[1]) == ref(block.Data)
 //@     call[dynamic#0] assert user_callback_gets_the_same_block [C15]: arg0 == block && werr == nil
+//@     check every_user_callback_is_told [C15]: result == nil ==> werr == nil && rangeindex == len(userOnNewCarBlocks)
 //@   end
 
 // Root-module reader construction and the walker's per-node step (C01, C02, C09, C15).
